@@ -421,6 +421,44 @@ theorem closeMany_spec (ids : List Nat) : ∀ (s : State), Str s → Caps s → 
         simp [List.filter_cons, liveIn, hl, push, closedCore]
         omega
 
+/-- every live flow is counted in `len` -/
+theorem len_pos_of_live {s : State} (hs : Str s) {id : Nat} {f : Flow} (hf : get? s.slots id = some f) :
+    1 ≤ s.len := by
+  rw [hs.lenEq]
+  have hmem : id ∈ liveIds s := by
+    simp only [liveIds, List.mem_filter, List.mem_range, getFlow_def]
+    exact ⟨hs.slabBound id f hf, by simp [hf]⟩
+  exact List.length_pos_of_mem hmem
+
+/-- a close loop lowers `len` by exactly the number of flows it closes -/
+theorem closeMany_len_add (ids : List Nat) : ∀ (s : State), Str s → ids.Nodup →
+    (ids.foldl closeFlow s).len + (ids.filter (liveIn s)).length = s.len := by
+  induction ids with
+  | nil => intro s _ _; simp
+  | cons id rest ih =>
+    intro s hs hnd
+    have hnd' := List.nodup_cons.mp hnd
+    simp only [List.foldl_cons]
+    have hlive : ∀ j, j ∈ rest → liveIn (closeFlow s id) j = liveIn s j := by
+      intro j hj
+      have : j ≠ id := fun e => hnd'.1 (e ▸ hj)
+      simp [liveIn, closeFlow_get hs, this]
+    have hfilt : rest.filter (liveIn (closeFlow s id)) = rest.filter (liveIn s) :=
+      List.filter_congr (fun j hj => hlive j hj)
+    have := ih (closeFlow s id) (str_closeFlow hs id) hnd'.2
+    rw [hfilt] at this
+    cases hl : get? s.slots id with
+    | none =>
+      have hd := closeFlow_dead hl
+      rw [hd] at this ⊢
+      simp [List.filter_cons, liveIn, hl]; exact this
+    | some g =>
+      have hpos := len_pos_of_live hs hl
+      have hlen : (closeFlow s id).len = s.len - 1 := by
+        rw [closeFlow_live hs hl, (sameCore_reschedule _).len]; rfl
+      simp [List.filter_cons, liveIn, hl]
+      omega
+
 theorem liveIds_nodup (s : State) : (liveIds s).Nodup :=
   List.Nodup.sublist List.filter_sublist List.nodup_range
 
@@ -701,7 +739,7 @@ inductive Kind (s s' : State) (op : Op) : Prop
         ∃ now, op = .timeout now ∧ ∀ j, j ∈ ids ↔ ∃ f, get? s.slots j = some f ∧ f.deadline ≤ now)
       (hsig : sig s'.outs = sig s.outs ++ ids.map Out.closeFlow)
       (slots : ∀ j, get? s'.slots j = if j ∈ ids then none else get? s.slots j)
-      (len : s'.len = s.len - ids.length)
+      (len : s'.len = s.len - ids.length) (hle : ids.length ≤ s.len)
 
 theorem kind_drop (s : State) (r : DropReason) (op : Op) : Kind s (dropDatagram s r) op :=
   .quiet (sameCore_drop s r) ⟨[.drop r], sig_drop s r, by intro o ho; exact ⟨r, by simpa using ho⟩⟩
@@ -975,8 +1013,9 @@ theorem closesList_kind {s : State} (hs : Str s) (hc : Caps s) (ids : List Nat) 
     Str (ids.foldl closeFlow s) ∧ Caps (ids.foldl closeFlow s) ∧ Kind s (ids.foldl closeFlow s) op := by
   obtain ⟨a, b, c, d, e, f⟩ := closeMany_spec ids s hs hc hnd
   have hfilt : ids.filter (liveIn s) = ids := filter_all_true _ _ (fun x hx => hlive x hx)
-  rw [hfilt] at d f
-  exact ⟨a, b, .closes ids hnd hlive hop d e f⟩
+  have hadd := closeMany_len_add ids s hs hnd
+  rw [hfilt] at d f hadd
+  exact ⟨a, b, .closes ids hnd hlive hop d e f (by omega)⟩
 
 theorem abort_kind {s : State} (hs : Str s) (hc : Caps s) (id : Nat) :
     Str (closeFlow s id) ∧ Caps (closeFlow s id) ∧ Kind s (closeFlow s id) (.abort id) := by
@@ -1011,11 +1050,12 @@ theorem timeout_kind {s : State} (hs : Str s) (hc : Caps s) (now : Nat) :
   obtain ⟨a, b, c, d, e, f⟩ := closeMany_spec ((liveIds s).filter (isDue s now)) s hs hc hnd
   have hfilt : ((liveIds s).filter (isDue s now)).filter (liveIn s) = (liveIds s).filter (isDue s now) :=
     filter_all_true _ _ (fun x hx => hlive x hx)
-  rw [hfilt] at d f
+  have hadd := closeMany_len_add ((liveIds s).filter (isDue s now)) s hs hnd
+  rw [hfilt] at d f hadd
   have hcore := sameCore_reschedule (((liveIds s).filter (isDue s now)).foldl closeFlow s)
   refine ⟨str_sameCore hcore a, caps_sameCore hcore b, ?_⟩
   exact .closes _ hnd hlive (Or.inr (Or.inr ⟨now, rfl, fun j => mem_due hs now j⟩))
-    (by rw [sig_reschedule]; exact d) (by intro j; rw [hcore.slots]; exact e j) (by rw [hcore.len]; exact f)
+    (by rw [sig_reschedule]; exact d) (by intro j; rw [hcore.slots]; exact e j) (by rw [hcore.len]; exact f) (by omega)
 
 /-- every input, classified; the invariant is preserved -/
 theorem handle_kind {s : State} (hs : Str s) (hc : Caps s) (op : Op) :
@@ -1101,6 +1141,16 @@ theorem mem_closedIds {id : Nat} {l : List Out} : id ∈ closedIds l ↔ Out.clo
   | nil => simp [closedIds]
   | cons o t ih =>
     cases o <;> simp_all [closedIds, List.filterMap_cons]
+
+def isSel : Out → Bool
+  | .selectBackend _ _ _ => true
+  | _ => false
+
+theorem sel_sig (l : List Out) : (sig l).filter isSel = l.filter isSel := by
+  induction l with
+  | nil => rfl
+  | cons o t ih =>
+    cases o <;> simp_all [sig, Out.noise, isSel, List.filter_cons]
 
 def isToBackend : Out → Bool
   | .sendToBackend _ _ _ => true
